@@ -129,11 +129,13 @@ def base_streams(stuffing: bool, tier: str):
     pool = X.frame_pool()
     short = [k for k in pool if k != "max2047"]
     seqs = [(k,) for k in short]
-    seqs += list(itertools.product(short, repeat=2))
     core3 = ("hdr_only", "short", "flagesc", "badfcs")
     if tier == "quick":
-        seqs += [t for t in itertools.product(core3, repeat=3) if len(set(t)) == 3][:12]
+        seqs += list(itertools.product(core3, repeat=2))
+        seqs += [(a, "short") for a in ("wronglen", "addr24", "segbit")] + [("short", a) for a in ("wronglen", "addr24", "segbit")]
+        seqs += [t for t in itertools.product(core3, repeat=3) if len(set(t)) == 3][:6]
     else:
+        seqs += list(itertools.product(short, repeat=2))
         seqs += list(itertools.product(short, repeat=3))
     out = []
     for seq in seqs:
@@ -208,7 +210,7 @@ def main(run: core.Run) -> int:
     bind_fixtures(run)
     N, NS, NT = (8, 7, 6) if q else (10, 9, 8)
     run.bounds = {"octet_strings": f"Sigma_h^<={N} (no stuffing), Sigma_h+^<={NS} (stuffing)", "token_sequences": f"<={NT} tokens",
-                  "deviations": "<=1 edit (quick) on singles, pairs and 12 triples" if q else
+                  "deviations": "<=1 edit (quick) on singles, 22 pairs and 6 triples" if q else
                   "<=1 edit on all singles/pairs/triples, <=2 edits on single frames; all 4 configurations on both wire forms",
                   "chunkings": "one-shot, octet-wise, every single cut (every pair of cuts for unedited streams <=60 octets)"}
     tasks = []
